@@ -204,7 +204,7 @@ def check_files(files, backend, nexp, label, viols, ids_expected):
 
 
 # further Enzo files that list the non-Grackle species once each, in slot order: template -> pattern of one list entry
-ENZO_LISTS = ["hydro_rk/Grid_ReturnHydroRKPointers.C.j2", "hydro_rk/Grid_ReturnOldHydroRKPointers.C.j2", "hydro_rk/Grid_TurbulenceInitializeGrid.C.j2",
+ENZO_LISTS = ["Grid.h.j2", "hydro_rk/Grid_ReturnHydroRKPointers.C.j2", "hydro_rk/Grid_ReturnOldHydroRKPointers.C.j2", "hydro_rk/Grid_TurbulenceInitializeGrid.C.j2",
               "hydro_rk/Grid_CollapseMHD3DInitializeGrid.C.j2", "hydro_rk/TurbulenceInitialize.C.j2", "hydro_rk/CollapseMHD3DInitialize.C.j2"]
 ENZO_LIST_PATTERNS = {
     "hydro_rk/Grid_ReturnHydroRKPointers.C": [r"Prim\[nfield\+\+\]\s*=\s*BaryonField\[(\S+?)Num\];"],
@@ -262,6 +262,14 @@ def enzo_tables(out, net, entries, order, label, viols):
             pairs_ok = all(isinstance(f, str) or f[0] == f[1] for f in found)
             if names != wantl or not pairs_ok:
                 viols.append((f"C09:enzo-list:{rel.split('/')[-1]}", f"{label}: {rel} lists {names} (pairs consistent: {pairs_ok}), the non-Grackle species in slot order are {wantl}", None))
+                break
+    # every declaration, definition and call of the field lookup names the same fields in the same order
+    for rel in sorted(str(q.relative_to(out)) for q in out.rglob("*") if q.is_file()):
+        txt = (out / rel).read_text(errors="replace")
+        for m in re.finditer(r"IdentifyNaunetSpeciesFields\s*\(([^)]*)\)", txt):
+            args = [re.sub(r"^int\s*&\s*", "", a.strip()) for a in m.group(1).replace("\n", " ").split(",") if a.strip()]
+            if args and all(a.endswith("Num") for a in args) and args != var:
+                viols.append((f"C09:enzo-identify-call:{rel.split('/')[-1]}", f"{label}: {rel} uses IdentifyNaunetSpeciesFields({', '.join(args)}), the fields in slot order are {var}", None))
                 break
     t = (out / "typedefs.h").read_text()
     new = [(n, int(v)) for n, v in re.findall(r"^\s*(\S+)Density\s*=\s*(\d+),\s*$", t, re.M) if int(v) >= 104]
